@@ -36,7 +36,7 @@ type c10Scenario struct {
 	Config   string      `json:"config"`
 }
 
-var c10Kinds = []string{"where", "evalKeep", "evalOnly", "evalKeepList", "evalTag", "default", "delete", "shift", "sample", "derivative", "changeDetect", "stateCount", "stateDuration", "deleteDim", "changeDetectOpt", "stateDuration", "whereCount", "evalCount"}
+var c10Kinds = []string{"where", "evalKeep", "evalOnly", "evalKeepList", "evalTag", "default", "delete", "shift", "sample", "derivative", "changeDetect", "stateCount", "stateDuration", "deleteDim", "changeDetectOpt", "stateDuration", "whereCount", "evalCount", "evalOpt", "whereOpt"}
 
 // units of stateDuration, in milliseconds
 var c10Units = []int{1000, 2000, 60000, 500}
@@ -51,6 +51,11 @@ func (n c10Node) tick() string {
 		return fmt.Sprintf("|where(lambda: count() <= %d)", n.X+1)
 	case "evalCount":
 		return "|eval(lambda: count()).as('n').keep()"
+	case "evalOpt":
+		// over a field only some points carry: a point without it is skipped (and reported)
+		return "|eval(lambda: \"c\" + \"a\").as('e1').keep()"
+	case "whereOpt":
+		return fmt.Sprintf("|where(lambda: isPresent(\"c\") AND \"c\" >= %d)", n.X%3)
 	case "evalKeep":
 		return fmt.Sprintf("|eval(lambda: \"a\" + %d).as('e1').keep()", n.X)
 	case "evalOnly":
@@ -269,6 +274,22 @@ func (n c10Node) applyTo(in []c10P, endOfBatch bool) []c10P {
 	case "whereCount":
 		for i, p := range in {
 			if i < n.X+1 {
+				out = append(out, p)
+			}
+		}
+	case "evalOpt":
+		for _, p := range in {
+			cv, ok := p.fields["c"].(int64)
+			if !ok {
+				continue
+			}
+			q := p.clone()
+			q.fields["e1"] = cv + p.fields["a"].(int64)
+			out = append(out, q)
+		}
+	case "whereOpt":
+		for _, p := range in {
+			if cv, ok := p.fields["c"].(int64); ok && cv >= int64(n.X%3) {
 				out = append(out, p)
 			}
 		}
@@ -584,7 +605,7 @@ func runC10(c *Ctx) Verdict {
 		return verdict
 	}
 	for _, e := range d.Sinks.Errs {
-		if strings.Contains(e, "elaspsed time was 0") || strings.Contains(e, "field is the wrong type") || strings.Contains(e, "expected field c not found") {
+		if strings.Contains(e, "elaspsed time was 0") || strings.Contains(e, "field is the wrong type") || strings.Contains(e, "expected field c not found") || strings.Contains(e, "for type missing") {
 			continue // documented refusals: no derivative between two points with the same time, or of a field that is not there
 		}
 		return Fail("node-error", "a node reported an error on well-typed input: %s\nscript:\n%s", e, sc.Script)
